@@ -10,4 +10,5 @@ for i in 1 2 3; do
   tools/try_refactor.sh /verif/refactorings/R4/refactor$i.diff C15 C14 C01 C02
   tools/try_refactor.sh /verif/refactorings/R5/refactor$i.diff C11 C09 C06 C07 C18
   tools/try_refactor.sh /verif/refactorings/R6/refactor$i.diff C19 C16 C20
+  tools/try_refactor.sh /verif/refactorings/R7/refactor$i.diff C20 C02 C05 C01 C08 C09 C15
 done
